@@ -721,6 +721,7 @@ impl Generator {
                     Surgery::InstallVarComposite { .. } => &["glyf", "gvar"],
                     Surgery::InstallVarSimple { .. } => &["gvar"],
                     Surgery::InstallAvar { .. } => &["avar"],
+                    Surgery::PostFormat { .. } => &["post"],
                     _ => &[],
                 });
             }
@@ -1754,6 +1755,13 @@ fn gen_install(rng: &mut Rng, info: &FontInfo, prop: &str) -> Option<(FontInfo, 
         let first = 1 + rng.below(u64::from(info.num_glyphs - 8).min(40)) as u16;
         surgeries.push(Surgery::MacRomanCmap {
             glyphs: (first..first + 7).collect(),
+        });
+    }
+    if rng.pct(p_names / 2 + 1) && info.has("post") && info.has("glyf") {
+        let v25 = info.num_glyphs <= 385 && rng.pct(70);
+        surgeries.push(Surgery::PostFormat {
+            v25,
+            variant: rng.below(1 << 16),
         });
     }
     if rng.pct(p_names) && info.has("name") {
